@@ -213,6 +213,26 @@ def fam_combo(quick):
             yield Case("combo%d-interleaved" % k, a, PRE_X + "\n".join(xcalls) + "\n", files)
 
 
+def fam_many(quick):
+    """many definitions (more than one 32 KiB pool of the macro table) and bytes above 0x7f inside bodies and arguments"""
+    for n in (10, 700, 1400, 2600):
+        names = ["LONG_DEFINITION_NAME_%06d" % i for i in range(n)]
+        defs = "".join(".define %s %d\n" % (nm, (i * 7 + 3) & 0xff) for i, nm in enumerate(names))
+        for use in sorted({0, n // 2, n - 1}):
+            v = (use * 7 + 3) & 0xff
+            yield Case("many-defines", defs + PRE_X + ".db %s\n.ifdef %s\n.db 0xaa\n.else\n.db 0xbb\n.endif\n" % (names[use], names[use]),
+                       PRE_X + ".db %d\n.db 0xaa\n" % v)
+        macs = "".join(".macro M_%s(a)\n.db a, %d\n.endm\n" % (nm, i & 0xff) for i, nm in enumerate(names[:max(10, n // 4)]))
+        last = max(10, n // 4) - 1
+        yield Case("many-macros", macs + PRE_X + "M_%s(9)\n" % names[last], PRE_X + ".db 9, %d\n" % (last & 0xff))
+    for hi in ("\xe9", "\x80", "\xff", "\xc3\xa9"):
+        body = '"h%sllo", 0' % hi
+        yield Case("high-bytes", PRE + ".define GREETING %s\n.db GREETING\nafter:\n.db 1\n" % body, PRE_X + ".db %s\nafter:\n.db 1\n" % body)
+        yield Case("high-bytes", PRE + ".macro STR(s)\n.db s, 0\n.endm\nSTR(\"caf%s\")\nafter:\n.db 1\n" % hi,
+                   PRE_X + ".db \"caf%s\", 0\nafter:\n.db 1\n" % hi)
+        yield Case("high-bytes", PRE + ".macro HB\n.db \"x%sy\", 2\n.endm\nHB\nafter:\n.db 1\n" % hi, PRE_X + ".db \"x%sy\", 2\nafter:\n.db 1\n" % hi)
+
+
 def fam_cpus(quick):
     """the same macro argument substitution inside instruction operands of three more CPUs"""
     for cpu, body, args in (("6502", "lda #a\nsta b", [["1", "0x200"], ["(2+3)", "lab"]]),
@@ -312,7 +332,7 @@ def run(ctx):
     asm.tools("rel")
     q = False          # the quick tier runs the full base menus (about 3 000 pairs); thorough adds fam_extended
     cases, seen = [], set()
-    gens = [fam_macros, fam_nested, fam_defines, fam_repeat, fam_include, fam_combo, fam_cpus]
+    gens = [fam_macros, fam_nested, fam_defines, fam_repeat, fam_include, fam_combo, fam_cpus, fam_many]
     if not ctx.quick():
         gens.append(lambda _q: fam_extended())
     for gen in gens:
